@@ -15,25 +15,78 @@ MAP_SHARED, MAP_PRIVATE, MAP_FIXED = 0x01, 0x02, 0x10
 
 from ..mir import same_expr
 
+_site_cache = {}
 
-def const_values(e, depth=0):
-    """Set of possible constant values of e (multi = union), or None if not constant."""
+
+def mmap_sites(facts):
+    """[(body, bb, term)] for every place a mapping is created, on bodies with Map's own thin wrappers substituted in: a private
+    `unsafe fn mmap_rw(addr, len, flags, fd) -> *mut c_void { libc::mmap(..) }` called from `with_addr` is judged in with_addr,
+    where the flags are chosen, the result is tested and the Map is built.  A wrapper is a crate function of Map that calls
+    mmap(), returns what mmap() returned (casts only) and is itself called from crate code; it is not judged on its own.  Today: the one direct call in with_addr."""
+    c = _site_cache.get(id(facts))
+    if c is not None and c[0] is facts:
+        return c[1]
+    from .. import inline
+    direct = {}
+    for body, bb, t in facts.callers_of(MMAP):
+        direct.setdefault(body.q, (body, []))[1].append((bb, t))
+    wrappers = set()
+    for q, (body, calls) in direct.items():
+        owner = body.self_adt if body.kind != "closure" else (body.parent or {}).get("self_adt")
+        if body.kind != "closure" and owner == MAP_ADT and any(True for _ in facts.callers_of(q)):
+            # thin: what it returns is what mmap() returned (casts only)
+            rets = [peel(e, through_try=False) for _b, _i, e in assigns_to_return(body)]
+            rets = [_strip_casts_e(e) for e in rets]
+            if rets and all(e is not None and e.k == "call" and any(e.bb == bb for bb, _t in calls) for e in rets):
+                wrappers.add(q)
+    out = []
+    for q, (body, calls) in direct.items():
+        if q not in wrappers:
+            out += [(body, bb, t) for bb, t in calls]
+    if wrappers:
+        seen = set()
+        for cb, cbb, ct in facts.callers_of(wrappers):
+            if cb.path in seen or cb.q in wrappers:
+                continue
+            seen.add(cb.path)
+            nb, inl = inline.inline_body(facts, cb, lambda hb: hb.q in wrappers, depth=3)
+            for bb, t in nb.calls():
+                if MMAP in Body.callee_qs(t) and bb in nb.reachable(0):
+                    out.append((nb, bb, t))
+    _site_cache[id(facts)] = (facts, out)
+    return out
+
+
+def const_values(e, depth=0, env=None):
+    """Set of possible constant values of e (multi = union), or None if not constant.  A local that is updated in place
+    (`let mut flags = MAP_SHARED; if fixed { flags |= MAP_FIXED }`) is the least fixed point of its assignments."""
     e = peel(e, through_try=False)
     if e is None or depth > 10:
         return None
     if e.k == "const" and isinstance(e.v, int):
         return {e.v}
+    if e.k == "local" and env is not None and e.local in env:
+        return set(env[e.local])
     if e.k == "multi" and e.alts:
-        out = set()
-        for a in e.alts:
-            v = const_values(a, depth + 1)
-            if v is None:
+        env2 = dict(env or {})
+        cur = set()
+        for _round in range(8):
+            env2[e.local] = cur
+            out = set()
+            for a in e.alts:
+                v = const_values(a, depth + 1, env2)
+                if v is None:
+                    return None
+                out |= v
+            if out == cur:
+                return out
+            if len(out) > 16:
                 return None
-            out |= v
-        return out
+            cur = out
+        return None
     if e.k == "bin" and e.op in ("BitOr", "BitAnd", "Add"):
-        a = const_values(e.a, depth + 1)
-        b = const_values(e.b, depth + 1)
+        a = const_values(e.a, depth + 1, env)
+        b = const_values(e.b, depth + 1, env)
         if a is None or b is None:
             return None
         f = {"BitOr": lambda x, y: x | y, "BitAnd": lambda x, y: x & y, "Add": lambda x, y: x + y}[e.op]
@@ -109,7 +162,7 @@ def rule_r1(facts, col):
 
 def rule_r2(facts, col):
     """every successful mmap is owned by a Map or unmapped on every path"""
-    for body, bb, t in facts.callers_of(MMAP):
+    for body, bb, t in mmap_sites(facts):
         key = "%s:mmap" % body.q
         buf = t["dst"]["l"]
         len_arg = body.operand_expr(t["args"][1])
@@ -319,12 +372,12 @@ def rule_r5(facts, col):
 
 def rule_r6(facts, col):
     """mmap flags: MAP_SHARED | {0, MAP_FIXED}; offset 0"""
-    for body, bb, t in facts.callers_of(MMAP):
+    for body, bb, t in mmap_sites(facts):
         key = "%s:flags" % body.q
         vals = const_values(body.operand_expr(t["args"][3]))
         off = const_values(body.operand_expr(t["args"][5]))
         if vals is None:
-            col.silent("C18.R6", key, body.where(bb), "flags not constant")
+            col.silent("C18.R6", key, body.where(bb), "flags not constant: %s" % show(body.operand_expr(t["args"][3]))[:160])
             continue
         bad = [v for v in vals if not (v & MAP_SHARED) or (v & MAP_PRIVATE) or (v & ~(MAP_SHARED | MAP_FIXED))]
         if bad:
@@ -436,10 +489,10 @@ def rule_r9(facts, col, rule_id="C18.R9"):
     MAP_FIXED mapping onto memory the reservation does not cover: it replaces (and the error path then unmaps) a page of
     whatever lives next to it - another live stream's first page."""
     n = 0
-    for body in facts.bodies:
+    for body, bb, t in mmap_sites(facts):
         if body.name != "with_addr" or body.file != "src/circular_buffer.rs":
             continue
-        for bb, t in body.calls():
+        if True:
             if t["f"].get("name") != "mmap" or not t["args"]:
                 continue
             n += 1
